@@ -42,6 +42,7 @@ MIN_NONTRIVIAL = 60
 CTX = None
 MON = None
 FAULTS = None
+YIELDS = None
 AUDIT = {"on": False, "events": []}
 MZ = AU.m_automaton()
 EMPTIED = {"SimSun_bad_len9", "av_231_and_mesh_bad_len9"}
@@ -95,11 +96,15 @@ def setup(ctx):
     io_functions = {"store_dfa_for_perm", "load_dfa_for_perm", "create_dfa_db_for_length", "make_dfa_for_basis_from_db"}
     codes = [c for c in monitor.class_code_objects(PinWords, "pin_words.py") if c.co_name not in io_functions]
     FAULTS = monitor.FaultInjector(codes)
+    global YIELDS
+    YIELDS = monitor.YieldInjector([c for c in monitor.class_code_objects(PinWords, "pin_words.py") if c.co_name in io_functions],
+                                   seed=ctx.seed, p=0.5)
 
 
 def teardown(ctx):
     AUDIT["on"] = False
     FAULTS.close()
+    YIELDS.close()
     MON.uninstall()
     os.chdir(ctx._cwd)
 
@@ -284,9 +289,12 @@ def chk_dfa(ctx, ops, seed):
 
                 old_si = sys.getswitchinterval()
                 sys.setswitchinterval(1e-6)
+                YIELDS.on()  # yields at every statement of the store / load functions
                 ths = [threading.Thread(target=work, args=(p,), daemon=True) for p in perms]
                 [t.start() for t in ths]
                 [t.join(120) for t in ths]
+                YIELDS.off()
+                ctx.counters["dfa.yields_injected"] = YIELDS.count
                 sys.setswitchinterval(old_si)
                 ctx.ev()
                 ctx.count("dfa.threaded_rounds")
@@ -470,5 +478,8 @@ def run(ctx, spec):
                 ops.append(["db", rng.choice([1, 2, 2, 3])])
             else:
                 ops.append(["basis", rng.sample(pool, rng.randint(1, 3))])
+        if rng.random() < 0.5:
+            k = rng.choice([2, 3, 3])
+            ops.insert(rng.randrange(len(ops) + 1), ["threads", rng.sample([list(t) for t in C.all_perms(k)], min(4, len(list(C.all_perms(k)))))])
         chk_dfa(ctx, ops, rng.randrange(10 ** 6))
     ctx.sample({"file_history": ops})
